@@ -747,6 +747,39 @@ func (e *Env) evalCall(n ECall) tv {
 			return e.fail("cidr on non-slice")
 		}
 		return tv{Sc{T: e.cidrTerm(sl, n.Args[1].(EStr).V)}, boolT}
+	case "ip_is_global_unicast":
+		v := e.eval(n.Args[0])
+		sl, ok := v.v.(Sl)
+		if !ok {
+			return e.fail("ip_is_global_unicast on non-slice")
+		}
+		return tv{Sc{T: e.ipGlobalUnicast(sl)}, boolT}
+	case "ipnet_shape_ok", "ipnet_contains":
+		nv := e.eval(n.Args[0])
+		_, ref, ok := e.structOf(nv)
+		if !ok {
+			return e.fail("%s: first argument must be *net.IPNet", n.Fn)
+		}
+		owner := derefType(nv.t)
+		st := owner.Underlying().(*types.Struct)
+		var nip, mask Sl
+		for i := 0; i < st.NumFields(); i++ {
+			switch st.Field(i).Name() {
+			case "IP":
+				nip = c.loadField(s, ref, owner, i).(Sl)
+			case "Mask":
+				mask = c.loadField(s, ref, owner, i).(Sl)
+			}
+		}
+		if n.Fn == "ipnet_shape_ok" {
+			return tv{Sc{T: Or(And(Eq(nip.Len, IntLit(4)), Eq(mask.Len, IntLit(4))), And(Eq(nip.Len, IntLit(16)), Eq(mask.Len, IntLit(16)), Not(e.v4mapped(nip))))}, boolT}
+		}
+		ipv := e.eval(n.Args[1])
+		ip, ok := ipv.v.(Sl)
+		if !ok {
+			return e.fail("ipnet_contains: second argument must be a byte slice")
+		}
+		return tv{Sc{T: e.ipnetContains(nip, mask, ip)}, boolT}
 	case "sameslice":
 		a, b := e.eval(n.Args[0]), e.eval(n.Args[1])
 		x, ok1 := a.v.(Sl)
@@ -863,4 +896,65 @@ func (e *Env) cidrTerm(sl Sl, cidr string) Term {
 func atoi(s string) int {
 	n, _ := strconv.Atoi(s)
 	return n
+}
+
+// ---- transcription of the net package's address predicates (assumed, validated by execution) ----
+
+func (e *Env) byteOf(sl Sl, i int) Term {
+	return e.c.loadElem(e.s, sl.Arr, Add(sl.Off, IntLit(int64(i))), types.Typ[types.Uint8]).(Sc).T
+}
+
+func (e *Env) v4mapped(ip Sl) Term {
+	cs := []Term{Eq(ip.Len, IntLit(16))}
+	for i := 0; i < 10; i++ {
+		cs = append(cs, Eq(e.byteOf(ip, i), BVLit(0, 8)))
+	}
+	cs = append(cs, Eq(e.byteOf(ip, 10), BVLit(0xff, 8)), Eq(e.byteOf(ip, 11), BVLit(0xff, 8)))
+	return And(cs...)
+}
+
+// ip4 returns (isV4, byte i of To4(ip)).
+func (e *Env) ip4(ip Sl) (Term, func(i int) Term) {
+	is4 := Eq(ip.Len, IntLit(4))
+	mapped := e.v4mapped(ip)
+	return Or(is4, mapped), func(i int) Term { return Ite(is4, e.byteOf(ip, i), e.byteOf(ip, 12+i)) }
+}
+
+func (e *Env) ipGlobalUnicast(ip Sl) Term {
+	isV4, b4 := e.ip4(ip)
+	is16 := Eq(ip.Len, IntLit(16))
+	eq4 := func(a, b, c2, d byte) Term {
+		return And(isV4, Eq(b4(0), BVLit(uint64(a), 8)), Eq(b4(1), BVLit(uint64(b), 8)), Eq(b4(2), BVLit(uint64(c2), 8)), Eq(b4(3), BVLit(uint64(d), 8)))
+	}
+	all16 := func(last byte) Term {
+		cs := []Term{is16}
+		for i := 0; i < 15; i++ {
+			cs = append(cs, Eq(e.byteOf(ip, i), BVLit(0, 8)))
+		}
+		cs = append(cs, Eq(e.byteOf(ip, 15), BVLit(uint64(last), 8)))
+		return And(cs...)
+	}
+	bcast := eq4(255, 255, 255, 255)
+	unspec := Or(eq4(0, 0, 0, 0), all16(0))
+	loop := Or(And(isV4, Eq(b4(0), BVLit(127, 8))), And(Not(isV4), all16(1)))
+	mcast := Or(And(isV4, Eq(app("bvand", SBV8, b4(0), BVLit(0xf0, 8)), BVLit(0xe0, 8))), And(Not(isV4), is16, Eq(e.byteOf(ip, 0), BVLit(0xff, 8))))
+	llu := Or(And(isV4, Eq(b4(0), BVLit(169, 8)), Eq(b4(1), BVLit(254, 8))),
+		And(Not(isV4), is16, Eq(e.byteOf(ip, 0), BVLit(0xfe, 8)), Eq(app("bvand", SBV8, e.byteOf(ip, 1), BVLit(0xc0, 8)), BVLit(0x80, 8))))
+	return And(Or(Eq(ip.Len, IntLit(4)), is16), Not(bcast), Not(unspec), Not(loop), Not(mcast), Not(llu))
+}
+
+func (e *Env) ipnetContains(nip, mask, ip Sl) Term {
+	isV4, b4 := e.ip4(ip)
+	band := func(a, m Term) Term { return app("bvand", SBV8, a, m) }
+	var c4 []Term
+	c4 = append(c4, Eq(nip.Len, IntLit(4)), Eq(mask.Len, IntLit(4)), isV4)
+	for i := 0; i < 4; i++ {
+		c4 = append(c4, Eq(band(e.byteOf(nip, i), e.byteOf(mask, i)), band(b4(i), e.byteOf(mask, i))))
+	}
+	var c6 []Term
+	c6 = append(c6, Eq(nip.Len, IntLit(16)), Eq(mask.Len, IntLit(16)), Not(e.v4mapped(nip)), Eq(ip.Len, IntLit(16)), Not(isV4))
+	for i := 0; i < 16; i++ {
+		c6 = append(c6, Eq(band(e.byteOf(nip, i), e.byteOf(mask, i)), band(e.byteOf(ip, i), e.byteOf(mask, i))))
+	}
+	return Or(And(c4...), And(c6...))
 }
